@@ -408,10 +408,7 @@ func RegionsFromGFF(anno gff.GFF, refSeqDegapped string) ([]Region, []int, error
 		tempcds = append(tempcds, r)
 	}
 
-	// get a slide of positions that are not coding based on everything above
-	inter := codes(tempcds, len(refSeqDegapped))
-
-	// then make the final coding regions based on what has a name
+	// make the final coding regions based on what has a name
 	cds := make([]Region, 0)
 	for _, r := range tempcds {
 		if r.Name == "" {
@@ -419,6 +416,10 @@ func RegionsFromGFF(anno gff.GFF, refSeqDegapped string) ([]Region, []int, error
 		}
 		cds = append(cds, r)
 	}
+
+	// then get a slice of the positions that are in none of them, so that nucleotide
+	// changes outside the named regions (including inside unnamed features) are reported
+	inter := codes(cds, len(refSeqDegapped))
 
 	// sort by start position
 	sort.SliceStable(cds, func(j, k int) bool {
